@@ -12,4 +12,4 @@ done
 git -C /repo reset -q --hard HEAD
 git -C /repo clean -qfd -e target
 # the generated Lean tables must describe the restored tree again
-(cd /verif && python3 tools/translate_tuples.py >/dev/null; python3 tools/translate_locks.py >/dev/null; python3 tools/translate_mirrors.py >/dev/null; python3 tools/translate_counter.py >/dev/null; python3 tools/translate_control.py >/dev/null; python3 tools/translate_typestate.py >/dev/null)
+(cd /verif && python3 tools/translate_tuples.py >/dev/null; python3 tools/translate_locks.py >/dev/null; python3 tools/translate_mirrors.py >/dev/null; python3 tools/translate_counter.py >/dev/null; python3 tools/translate_control.py >/dev/null; python3 tools/translate_typestate.py >/dev/null; python3 tools/translate_scan.py >/dev/null)
